@@ -200,7 +200,7 @@ class Importer:
 
         def __init__(self, feed: typing.Union[setup.Feed, str, 'io.Feed']):
             if isinstance(feed, str):
-                feed = setup.Feed.resolve(feed)
+                [feed] = setup.Feed.resolve(feed)  # a single reference still resolves to a sequence (setup.Multi)
             descriptor, instance = (feed, None) if isinstance(feed, setup.Feed) else (None, feed)
             self._descriptor: typing.Optional[setup.Feed] = descriptor
             self._instance: typing.Optional[Feed] = instance
